@@ -3,6 +3,7 @@
 package main
 
 import (
+	"math"
 	"sort"
 
 	"golang.org/x/perf/internal/stats"
@@ -25,11 +26,19 @@ func (p byX) Swap(i, j int) {
 }
 
 func wdescrOne(xs, ws []float64, sorted bool, tag string) {
+	wdescrOneF(xs, ws, sorted, false, tag)
+}
+
+// fuzzy: decimal (inexact) weights and percentile arguments next to 1, where total*p and the running
+// subtraction round; the spec then accepts any value the definition gives for p -+ 1e-9.
+func wdescrOneF(xs, ws []float64, sorted, fuzzy bool, tag string) {
 	if sorted {
 		sort.Stable(byX{xs, ws})
 	}
-
 	ps := []float64{-0.25, 0, 1.0 / 64, 0.125, 0.25, 0.375, 0.5, 0.625, 0.75, 0.875, 63.0 / 64, 1, 1.5}
+	if fuzzy {
+		ps = []float64{0, 0.1, 0.3, 0.5, 0.7, 0.9, 1 - 1e-14, 1 - 1e-15, math.Nextafter(1, 0), 1}
+	}
 	s := stats.Sample{Xs: xs, Weights: ws, Sorted: sorted}
 	var mean, geo, mn, mx float64
 	pct := make([]float64, len(ps))
@@ -41,13 +50,26 @@ func wdescrOne(xs, ws []float64, sorted bool, tag string) {
 			pct[i] = s.Percentile(p)
 		}
 	})
-	sf := 0
+	sf, fz := 0, 0
 	if sorted {
 		sf = 1
 	}
-	hx.Printf("case %d kind=wdescr xs=%s ws=%s sorted=%d ps=%s gmean=%s ggeo=%s gmin=%s gmax=%s gpct=%s tag=%s\n",
-		id, fbList(xs), fbList(ws), sf, fbList(ps), fb(mean), fb(geo), fb(mn), fb(mx), fbList(pct), tag)
+	if fuzzy {
+		fz = 1
+	}
+	// tables for the float64 model of the weighted GeoMean: log of every x, exp of the weighted
+	// log-mean (computed by the real weighted Mean over the logs)
+	lx := make([]float64, len(xs))
+	for i, x := range xs {
+		lx[i] = math.Log(x)
+	}
+	var mlog float64
+	guard("wdescr", func() { mlog = stats.Sample{Xs: lx, Weights: ws}.Mean() })
+	hx.Printf("case %d kind=wdescr xs=%s ws=%s sorted=%d fuzzy=%d lx=%s mlog=%s emlog=%s ps=%s gmean=%s ggeo=%s gmin=%s gmax=%s gpct=%s tag=%s\n",
+		id, fbList(xs), fbList(ws), sf, fz, fbList(lx), fb(mlog), fb(math.Exp(mlog)), fbList(ps), fb(mean), fb(geo), fb(mn), fb(mx), fbList(pct), tag)
 	if ok {
+		// K: the float64 instance of the weighted model (Model/Stats/Weighted.lean), bit for bit
+		hx.Printf("obs %d mean=%s geo=%s min=%s max=%s pct=%s\n", id, fb(mean), fb(geo), fb(mn), fb(mx), fbList(pct))
 		hx.Printf("sobs %d mean=ok geo=ok bounds=ok pct=ok\n", id)
 	}
 	id++
@@ -62,6 +84,7 @@ func wdescrCases(r *hx.Rand, n int) {
 		wdescrOne([]float64{1, 2, 3}, []float64{0, 1, 1}, true, "weighted+corpus+leadingzero")
 		wdescrOne([]float64{1, 2, 3}, []float64{0, 0, 0}, true, "weighted+corpus+allzero")
 		wdescrOne([]float64{-1, 2, 3}, []float64{0, 1, 1}, false, "weighted+corpus+leadingzero")
+		wdescrOneF([]float64{1, 2, 3}, []float64{1.8, 0.8, 2.2}, true, true, "weighted+corpus+fallthrough")
 	}
 	for i := 0; i < n; i++ {
 		k := 1 + r.Intn(12)
@@ -88,6 +111,15 @@ func wdescrCases(r *hx.Rand, n int) {
 		}
 		if ws[0] == 0 && !sorted {
 			tag += "+leadingzero"
+		}
+		if r.Chance(1, 4) {
+			// decimal weights: the fall-through of the weighted percentile loop is reachable
+			// (e.g. weights 1.8, 0.8, 2.2 at p = 1 - 2^-53)
+			for j := range ws {
+				ws[j] = float64(1+r.Intn(30)) / 10
+			}
+			wdescrOneF(xs, ws, sorted, true, tag+"+decimalweights")
+			continue
 		}
 		wdescrOne(xs, ws, sorted, tag)
 	}
